@@ -5,6 +5,7 @@ import (
 	"fmt"
 	"os"
 	"runtime"
+	"runtime/debug"
 	"sort"
 	"strconv"
 	"time"
@@ -36,6 +37,7 @@ func envSeed(tier string) uint64 {
 }
 
 func main() {
+	debug.SetGCPercent(400) // runs are allocation-heavy and short-lived
 	if len(os.Args) < 2 {
 		usage()
 	}
@@ -85,6 +87,11 @@ func main() {
 		dl, _ := strconv.ParseInt(a[6], 10, 64)
 		res := runShard(e, a[1], seed, k, n, total, time.Unix(0, dl))
 		writePartial(a[7], res)
+	case "exec": // internal: exec <id> <planfile>
+		if len(os.Args) != 4 {
+			usage()
+		}
+		execCmd(os.Args[2], os.Args[3])
 	case "replay":
 		fs := flag.NewFlagSet("replay", flag.ExitOnError)
 		quiet := fs.Bool("quiet", false, "")
